@@ -49,14 +49,18 @@ RULE = ("predicates: for every predicate, size 1..6 and field (real / complex) t
         "Presentation: besides the dtype drawn for a predicate's matrix (int64 / float64 / complex128 as the values allow), every ndarray handed to toqito "
         "(matrices, second matrices B, each vector / operator of a list independently, helper operands) is a re-presentation of the same values determined by the "
         "case: C / Fortran / strided / permuted-stride layout and, for list elements, second arguments and helper operands, float64 / int64 where the values "
-        "allow — so pairs and lists mix real and complex dtypes; after every call the arguments (arrays, list objects, elements) are compared with a deep snapshot")
+        "allow — so pairs and lists mix real and complex dtypes; after every call the arguments (arrays, list objects, elements) are compared with a deep snapshot. "
+        "Structured negative instances (c16_hard.py, corpus first, then seeded): pairs of orthonormal bases whose overlap table |<u_k|v_l>|^2 equals 1/d except on one 2x2 rectangle "
+        "placed below / above the diagonal of the table or anywhere (d = 4 exactly over Q[i]: a complex Hadamard matrix with two rows mixed by a Pythagorean rotation; d = 3..6 as "
+        "float unitaries with prescribed moduli, deviation 0.02..0.08, the float vectors being the exact input), both listing orders of the two bases, with and without a common unitary; "
+        "mutually orthogonal sets containing zero vectors with at most / more members than the dimension (d = 1..6), reordered, and with one zero vector replaced by 1/4..1/16 of a member")
 ASSUMPTIONS = [
     "rounding an exact rational matrix to float64 moves every entry by at most 2^-53 relative, far below the margin 1e-3*(1+scale) and the library tolerances",
     "float64 arithmetic on the small (Gaussian) integer operands of the helper operations is exact (entries < 2^8, at most 3 factors, at most 36 terms)",
     "numpy.linalg.svd / eigh / cholesky / scipy null_space are accurate to 1e-8*scale on the well-conditioned small inputs generated",
     "every exact oracle used is proved in Lean for all sizes: the rank behind spark, is_linearly_independent, the UPB search and the commutant nullity (C16.rank_correct, spark_spec, linIndepV_yes_iff, upb_no_iff, commutantDim_eq_finrank), the determinant of the minors of is_totally_positive and the inverse of the signature of is_pseudo_hermitian (C16.det_correct, inverse_correct, totallyPositive_yes_iff, pseudoHermitian_yes_iff), and the definiteness verdicts, which the model only gives after its own proved certificate checker accepted an LDL^H factorisation resp. a negative direction computed by the model (C16.psd_yes_sound, psd_no_sound, pd_yes_sound, pd_no_sound); the Python-side certificates are kept as an independent second confirmation",
     "tolerance stream: the float matrix handed to toqito is sent to Lean exactly (every float is a dyadic rational); the tolerance-level mirror evaluates |a-b| <= atol + rtol*|b| exactly (C16.isclose_is_numpy / allclose_is_numpy) and a case is used only if the verdict is the same at the tolerances scaled by 1-1e-3 and 1+1e-3, which dominates the rounding inside toqito (relative 1e-16 on matrices with entries of modulus <= ~50; products of at most three 6x6 matrices); the eigenvalue test of is_positive_semidefinite is modelled as positive semidefiniteness of (lower triangle of A) + |atol| I (C16.psd_shift_iff_eigenvalues), each such verdict confirmed by a certificate",
-    "mutually unbiased bases are generated exactly only in dimensions 2, 4, 6 (entries in Q[i] up to a square-root normalisation); other dimensions only get violating inputs",
+    "mutually unbiased bases are generated exactly only in dimensions 2, 4, 6 (entries in Q[i] up to a square-root normalisation); other dimensions only get violating inputs (among them float unitaries whose moduli are prescribed: all overlaps 1/d to 1e-15 except four that are off by >= 0.02; the Lean decider says no on the exact dyadic image because of those four)",
 ]
 
 MARGIN = Fraction(1, 1000)
@@ -1272,7 +1276,7 @@ SET_IMPL = {
 }
 
 
-def ask_set(ctx, name, V, label, kind, expect=None, transformed=None):
+def ask_set(ctx, name, V, label, kind, expect=None, transformed=None, form=None):
     lr = ctx.lean().ask("c16_set_pred", {"name": name, "V": V.to_json(), "margin": MJ})
     lv = ("reject:" + lr["reject"]) if "reject" in lr else lr["v"]
     desc = {"setpred": name, "V": V.key(), "label": label, "kind": kind, "transformed": transformed}
@@ -1296,7 +1300,7 @@ def ask_set(ctx, name, V, label, kind, expect=None, transformed=None):
         ctx.count(f"cert/linear_{'in' if lv == 'yes' else ''}dependence")
         if not ok:
             raise InfraError(f"linear independence verdict {lv} of the exact decider is not confirmed by the verified certificate checker: {desc}")
-    vl, form = _vec_list(ctx.rng, V)
+    vl, form = _vec_list(ctx.rng, V, form=form)             # form given: no draw from ctx.rng
     desc["form"] = form
     prng = case_rng("c16/set", name, desc["V"], form)
     if name == "orthonormal":
@@ -1396,7 +1400,7 @@ def mub_bases(d):
     return [(I + 0j, 1)]
 
 
-def ask_mub(ctx, V, s, label, kind, expect=None, transformed=None):
+def ask_mub(ctx, V, s, label, kind, expect=None, transformed=None, form=None):
     d, n = V.shape
     base = {"V": V.to_json(), "s": [[x.numerator, x.denominator] for x in s], "margin": MJ}
     lv = ctx.lean().ask("c16_mub", {**base, "defn": True})["v"]
@@ -1411,7 +1415,7 @@ def ask_mub(ctx, V, s, label, kind, expect=None, transformed=None):
             raise InfraError(f"MUB generator ({label}) produced a set the Lean decider calls {lv}")
         if not transformed:
             return None
-    vl, form = _vec_list(ctx.rng, V, scales=s)
+    vl, form = _vec_list(ctx.rng, V, form=form, scales=s)   # form given: no draw from ctx.rng
     desc["form"] = form
     vl = present_obj(case_rng("c16/mub", desc["V"], desc["s"], form), vl)
     guard = Pure(vl)
@@ -2243,6 +2247,9 @@ def _matchers(ctx):
 
 def corpus(ctx):
     """past failures and named corner cases first"""
+    import sys
+    from . import c16_hard
+    c16_hard.run_corpus(ctx, sys.modules[__name__])   # almost-MUB pairs with the deviation in one corner of the overlap table; zero vectors
     # complex Hermitian positive definite Gram matrix must round-trip (Cholesky branch conjugation)
     rng = ctx.rng
     check_gram(ctx, 2, 2, True)
@@ -2294,8 +2301,10 @@ def run(ctx, model_ok=True):
             for _ in range(reps):
                 run_mub(ctx, d)
     run_upb(ctx)
-    # --- the same predicates near their tolerances, against the tolerance-level mirrors (default and explicit rtol / atol)
     import sys
+    from . import c16_hard
+    c16_hard.run_random(ctx, sys.modules[__name__])
+    # --- the same predicates near their tolerances, against the tolerance-level mirrors (default and explicit rtol / atol)
     from . import c16_tol
     c16_tol.run_tolerance(ctx, sys.modules[__name__])
     from . import c16_more
@@ -2357,9 +2366,9 @@ def replay(ctx, rec):
     if "pred" in a:
         ask_pred(ctx, a["pred"], QM.from_json(a["A"]), _args_from_desc(a.get("args", {})), a.get("label", "replay"), a.get("kind", "any"))
     elif "setpred" in a:
-        ask_set(ctx, a["setpred"], QM.from_json(a["V"]), a.get("label", "replay"), a.get("kind", "any"))
+        ask_set(ctx, a["setpred"], QM.from_json(a["V"]), a.get("label", "replay"), a.get("kind", "any"), form=a.get("form"))
     elif a.get("mub"):
-        ask_mub(ctx, QM.from_json(a["V"]), [Fraction(x) for x in a["s"]], a.get("label", "replay"), a.get("kind", "any"))
+        ask_mub(ctx, QM.from_json(a["V"]), [Fraction(x) for x in a["s"]], a.get("label", "replay"), a.get("kind", "any"), form=a.get("form"))
     elif a.get("upb"):
         ask_upb(ctx, a["dims"], a["local"], a.get("label", "replay"), a.get("kind", "any"), normalise=a.get("normalise", True))
     elif "listpred" in a:
